@@ -245,12 +245,30 @@ class Gen:
 # ------------------------------------------------------------------ correspondence
 def run_impl(lines: list[str]):
     """Execute a history on a fresh real builder; returns (completed op lines, records)."""
-    dp = 5
-    if lines and lines[0].startswith("cfg dp="):      # harness-only line: decimal places of this builder
-        dp = int(lines[0].split("=")[1])
+    from . import builder_impl as _bi
+
+    dp, cfg = 5, {}
+    if lines and lines[0].startswith("cfg "):      # harness-only line: decimal places of this builder, argument spelling
+        cfg = dict(kv.split("=") for kv in lines[0].split()[1:])
+        dp = int(cfg.get("dp", 5))
         lines = lines[1:]
+    _bi.NUMPY["on"] = cfg.get("np") == "1"
+    try:
+        return _run_impl(lines, dp, cfg)
+    finally:
+        _bi.NUMPY["on"] = False
+
+
+def cfg_line(im) -> list:
+    c = ([f"dp={im.dp0}"] if im.dp0 != 5 else []) + [f"{k}={v}" for k, v in sorted(im.cfg.items()) if k != "dp"]
+    return ["cfg " + " ".join(c)] if c else []
+
+
+def _run_impl(lines, dp, cfg):
     im = Impl(dp)
     im.dp0 = dp
+    im.cfg = cfg
+    im.lower = cfg.get("lower") == "1"
     out_lines, recs = [], []
     im.src_lines = []            # the harness-side line behind every executed line (same length as the result)
     im.step_dp = []              # decimal places in force when each executed line wrote its output
@@ -343,21 +361,21 @@ def correspond(R: core.Run, histories: list[list[str]], keys, exact: bool, label
     for h in histories:
         lines, recs, im = run_impl(h)
         done.append((lines, recs))
-        dps.append((im.dp0, im.step_dp))
+        dps.append((cfg_line(im), im.step_dp, im.dp0))
         badout = [(i, r) for i, r in enumerate(recs) if "!BAD(" in r]
         if badout:
             i, r = badout[0]
-            R.fail({"history": ([f"cfg dp={im.dp0}"] if im.dp0 != 5 else []) + lines[: i + 1]},
+            R.fail({"history": cfg_line(im) + lines[: i + 1]},
                    f"`{lines[i]}` wrote a line that is not a sequence of address words: {parse_record(r)['stmts']}", tag="malformed-output", step=i)
             continue
         if oracle:
             for step, msg, tag in oracle(lines, recs, im) or []:
-                R.fail({"history": ([f"cfg dp={im.dp0}"] if im.dp0 != 5 else []) + lines[: step + 1]}, msg, tag=tag, step=step)
+                R.fail({"history": cfg_line(im) + lines[: step + 1]}, msg, tag=tag, step=step)
     keep = [k for k, d in enumerate(done) if not any("!BAD(" in r for r in d[1])]
     done = [done[k] for k in keep]
     dps = [dps[k] for k in keep]
     model = run_model([l for l, _ in done])
-    for (lines, recs), mrecs, (dp0, step_dp) in zip(done, model, dps):
+    for (lines, recs), mrecs, (cfgl, step_dp, dp0) in zip(done, model, dps):
         nt = nontrivial(lines, recs) if nontrivial else (sum(1 for r in recs if "stmts=-" not in r) >= 2)
         R.case({"history": lines, "last_record": recs[-1] if recs else ""}, nontrivial=nt)
         R.count(label)
@@ -372,7 +390,7 @@ def correspond(R: core.Run, histories: list[list[str]], keys, exact: bool, label
             else:
                 bad = diff(ir, mr, keys, exact and lowest >= 5, dp)
             if bad:
-                R.disagree(f"builder[{','.join(bad)}]", {"history": ([f"cfg dp={dp0}"] if dp0 != 5 else []) + lines[: i + 1]},
+                R.disagree(f"builder[{','.join(bad)}]", {"history": cfgl + lines[: i + 1]},
                            {k: parse_record(ir).get(k) for k in bad}, {k: parse_record(mr).get(k) for k in bad}, step=i)
                 break
     return done
